@@ -41,6 +41,9 @@ structure Deal where
   rv : Nat          -- RndShare.V
   t : Nat           -- T
   commits : List Nat
+  /-- the session identifier the deal's content yields (`sessionID(dealer, verifiers, Commitments, T)`);
+      `sid` is the one the deal announces. An honest dealer announces `csid`. -/
+  csid : Nat := sid
 deriving DecidableEq, Repr, Inhabited
 
 /-- `Aggregator` / `aggregator`. `responses` is the Go map `index -> StatusApproved`, kept as an
@@ -250,15 +253,20 @@ def baseAgg (agg : Option Agg) (d : Deal) : Agg :=
   | some a => a
   | none => aggOfDeal d
 
+/-- Repaired (fixes/C10-deal-session-binding.patch): a deal is approved only if the session identifier it
+    announces is the one its content yields; as coded before, the announced identifier was taken on trust
+    (responses about different commitments could be counted together). -/
+def sidBound (cfg : Cfg) (d : Deal) : Bool := !cfg.strict || d.sid == d.csid
+
 /-- `Verifier.ProcessEncryptedDeal` after authentication and the own-index check:
     `VerifyDeal(d, true)`, build the response, `addResponse`. -/
 def processDealOn (cfg : Cfg) (me : Nat) (a : Agg) (d : Deal) : Agg × Out :=
   match verifyDeal cfg a d true with
   | (a', some .already) => (a', .errDeal .already)
   | (a', e) =>
-    match addResponse cfg a' me e.isNone with
+    match addResponse cfg a' me (e.isNone && sidBound cfg d) with
     | .error r => (a', .errResp r)
-    | .ok a'' => (a'', if e.isNone then .approve else .complain)
+    | .ok a'' => (a'', if e.isNone && sidBound cfg d then .approve else .complain)
 
 /-- `Verifier.ProcessEncryptedDeal` after authentication. -/
 def processDeal (cfg : Cfg) (me : Nat) (agg : Option Agg) (d : Deal) : Option Agg × Out :=
